@@ -17,10 +17,28 @@ import (
 
 // tsDbms is the 3-line stub through which the client reaches the server
 // (the protocol itself is covered by H6).
-type tsDbms struct{ core.IDbms }
+type tsDbms struct {
+	core.IDbms
+	// fault: the request to the server fails (0: never; 1: before the server saw it; 2: the
+	// reply is lost), as a server error or a lost connection does in the real client
+	fail func() int
+}
 
-func (d *tsDbms) Timestamp() core.SuDate { return db19.Timestamp() }
-func (d *tsDbms) Unwrap() core.IDbms     { return d }
+func (d *tsDbms) Timestamp() core.SuDate {
+	f := 0
+	if d.fail != nil {
+		f = d.fail()
+	}
+	if f == 1 {
+		panic("timestamp request failed (injected)")
+	}
+	t := db19.Timestamp()
+	if f == 2 {
+		panic("timestamp reply lost (injected)")
+	}
+	return t
+}
+func (d *tsDbms) Unwrap() core.IDbms { return d }
 
 func TestSim(t *testing.T) {
 	hkit.Main(t, hkit.Harness{
@@ -56,6 +74,17 @@ func run(s *simrt.Sim, mode string, ri *hkit.RunInfo) {
 	var all []got
 	var wg simsync.WaitGroup
 	dbms := &tsDbms{}
+	if g.Coin(1, 2) {
+		fs := s.Tape.Stream("reqfail")
+		den := []int{3, 10, 40}[g.Choose(3)]
+		dbms.fail = func() int {
+			if fs.Coin(1, den) {
+				s.Count("fault.timestamp-request-failed", 1)
+				return 1 + fs.Choose(2)
+			}
+			return 0
+		}
+	}
 	caller := func(who int, client bool, n int, gs *simrt.Stream) {
 		defer wg.Done()
 		th := core.NewThread(nil)
@@ -64,7 +93,20 @@ func run(s *simrt.Sim, mode string, ri *hkit.RunInfo) {
 		for i := 0; i < n && !s.Over(); i++ {
 			var v core.Value
 			if client {
-				v = th.Timestamp()
+				// a failed request is an exception in the calling code, which carries on
+				func() {
+					defer func() {
+						if e := recover(); e != nil {
+							if _, ok := e.(string); !ok {
+								panic(e)
+							}
+						}
+					}()
+					v = th.Timestamp()
+				}()
+				if v == nil {
+					continue
+				}
 			} else {
 				v = db19.Timestamp()
 			}
